@@ -532,3 +532,24 @@ func isPtrToNamed(t types.Type, pkgPath, name string) bool {
 	}
 	return n.Obj().Pkg().Path() == pkgPath && n.Obj().Name() == name
 }
+
+// retValue returns the i-th result of a Return, looking through the
+// defer-induced spill (`*t0 = v; rundefers; t = *t0; return t`).
+func retValue(ret *ssa.Return, i int) ssa.Value {
+	v := ret.Results[i]
+	u, ok := v.(*ssa.UnOp)
+	if !ok || u.Op != token.MUL {
+		return v
+	}
+	a, ok := u.X.(*ssa.Alloc)
+	if !ok {
+		return v
+	}
+	b := ret.Block()
+	for k := len(b.Instrs) - 1; k >= 0; k-- {
+		if st, ok := b.Instrs[k].(*ssa.Store); ok && st.Addr == a {
+			return st.Val
+		}
+	}
+	return v
+}
